@@ -108,7 +108,7 @@ fn variants(f: &str, from: char, decor: &[&str], r: &mut Rng) -> Vec<String> {
 }
 
 pub fn explore(ctx: &Ctx, shard: usize, n: usize) -> Report {
-    let mut rep = drive::cases(ctx, shard, n, RULE, 0x17, 60, 1500, |r, rep, _| {
+    let mut rep = drive::cases(ctx, shard, n, RULE, 0x17, 60, 12000, |r, rep, _| {
         let (groups, words, into, from) = base_project(r);
         // the base project itself must run
         let gs: Vec<RuleGroup> = groups.iter().map(|g| RuleGroup::from_rules(g.clone())).collect();
